@@ -52,6 +52,8 @@ type interpreter struct {
 	solver *solver
 	sched  *sched
 	test   *testRun // selftest only: state of the repository test being executed
+	race    *raceState     // schedule exploration + happens-before race detection (race.go); nil = off
+	wgCount map[*value]int // sync.WaitGroup counters
 	path   *pathState
 	opts   Options
 	funcs  map[*ssa.Function]bool
@@ -149,6 +151,14 @@ func (i *interpreter) publishedArrWrite(s []value, what string) {
 // guarded by a mutex (vfGuardMap), the mutex must be held - write-locked for updates,
 // at least read-locked for reads - otherwise a lock-discipline violation is recorded.
 func (i *interpreter) guardCheck(m *gmap, write bool, what string) {
+	if i.race != nil {
+		// concurrent mode: the happens-before detector decides (the lock state is per
+		// process here, not per goroutine)
+		if m != nil {
+			i.raceAccess(m, write, nil)
+		}
+		return
+	}
 	if m == nil || len(i.guards) == 0 {
 		return
 	}
@@ -433,6 +443,9 @@ func visitInstr(fr *frame, instr ssa.Instruction) continuation {
 		if addr == nil {
 			panic(i.rtPanic("invalid memory address or nil pointer dereference"))
 		}
+		if i.race != nil {
+			i.raceAccessT(mustDeref(instr.Addr.Type()), addr, true, fr)
+		}
 		store(mustDeref(instr.Addr.Type()), addr, fr.get(instr.Val))
 
 	case *ssa.If:
@@ -463,9 +476,12 @@ func visitInstr(fr *frame, instr ssa.Instruction) continuation {
 	case *ssa.Go:
 		fn, args := prepareCall(fr, &instr.Call)
 		pos := instr.Pos()
-		i.sched.spawn(i, func(g *gor) {
+		gated := i.race != nil && fr.fn.Pkg != nil && i.harnessPkg[fr.fn.Pkg.Pkg.Path()] && strings.HasPrefix(shortFile(i.prog.Fset.Position(fr.fn.Pos()).Filename), "zz_verif_")
+		child := i.sched.spawn(i, func(g *gor) {
 			call(i, nil, pos, fn, args)
-		})
+		}, gated)
+		i.raceSpawn(i.sched.cur, child)
+		i.schedPoint()
 
 	case *ssa.MakeChan:
 		fr.set(instr, &channel{cap: int(i.concInt(fr.get(instr.Size)))})
@@ -826,6 +842,9 @@ func callSSA(i *interpreter, caller *frame, callpos token.Pos, fn *ssa.Function,
 		}
 		name := fn.String()
 		if ext := externals[name]; ext != nil {
+			if i.race != nil && strings.HasPrefix(name, "(reflect.Value).") {
+				i.raceReflect(name[len("(reflect.Value)."):], args, caller)
+			}
 			r := ext(fr, args)
 			if _, ft := r.(fallThrough); !ft {
 				hooksUsedMu.Lock()
@@ -1113,6 +1132,8 @@ func (i *interpreter) resetSideTables() {
 	i.onceDone = map[*value]bool{}
 	i.syncMaps = map[*value]*gmap{}
 	i.locks = map[*value]int{}
+	i.race = nil
+	i.wgCount = nil
 	i.pools = map[*value][]value{}
 	i.extState = map[string]interface{}{}
 	i.guards = map[*gmap]*value{}
